@@ -107,7 +107,7 @@ Proof. unfold in_range. rewrite andb_true_iff, !N.leb_le. tauto. Qed.
 Theorem aligned_spec_t t rs : table_ok t = true -> aligned_t t rs = true ->
   forall c, inr c rs = memN (lookup n_atoms t c) (atoms_in_t t rs).
 Proof.
-  intros Ht Ha c. unfold aligned_t in Ha. apply andb_true_iff in Ha. destruct Ha as [Ha Hb].
+  intros Ht Ha c. unfold aligned_t in Ha. cbv zeta in Ha. apply andb_true_iff in Ha. destruct Ha as [Ha Hb].
   rewrite forallb_forall in Ha, Hb.
   assert (Hmem : forall a, memN a (atoms_in_t t rs) = true ->
                            exists e, In e t /\ entry_in rs e = true /\ e_atom e = a).
